@@ -18,6 +18,10 @@ objects, objects with a history, every argument type) and each result is certifi
 fractions, ideal mixing with the DESORPTION loadings (Model/IastPoint.lean `pointCertBranch` = selection by branch mark + `orient` + `pointCert`, op
 `pcertb` of Drv/Iast.lean; theorems Props/C13/Branch.lean, Props/C11/Branch.lean).  Model isotherms built / fitted on the desorption branch answer on
 that branch and refuse any other with ParameterError.
+ROOT OR STALL (finding S50-C13a, repaired in the repository): `root(method='lm')` reports success on every termination; every return of
+iast_point (uniform / vertex / random / boundary user guesses) and of reverse_iast (default and far gas-fraction guesses) is certified, and a
+relative spread of the spreading pressures above 1e-3 is the separate clause "a non-solution is returned", which no known finding matches
+(Props/C13/Accept.lean: the library's acceptance test bounds the relative spread of every return by 2e-4).
 """
 import math
 
@@ -43,6 +47,15 @@ def run(ck):
     N = ck.n(45, 240)
     worst = {}
     lines, plan = [], []
+
+    # at most 6 replay files per distinct failure signature (all keys: a signature that a known finding matches never shadows one that it does not)
+    _fail_case, _n_sig = ck.fail_case, {}
+
+    def fail_case_capped(sig, detail):
+        key = tuple(sorted((k, repr(v)) for k, v in sig.items()))
+        _n_sig[key] = _n_sig.get(key, 0) + 1
+        return _fail_case(sig, detail) if _n_sig[key] <= 6 else False
+    ck.fail_case = fail_case_capped
 
     def note(k, v):
         worst[k] = max(worst.get(k, 0.0), v)
@@ -107,31 +120,27 @@ def run(ck):
 
     ADS = ["N2", "CO2", "CH4", "C2H6"]
 
-    def default_certified(isos, pp):
-        """a solution of the same mixture exists and satisfies the equal-spreading-pressure equations (to the certificate's own 1e-6): from the default
-        guess or — when the default guess itself is refused (clean tree, seed 3 at boost 3: DSLangmuir / Henry / Quadratic, default guess ->
-        CalculationError "mole fractions below 0", uniform guess -> the root, far guess -> a non-root with relative spread 0.8) — from the uniform guess.
-        (1e-9 was too strict when the true solution has a minor component: seed 6 at boost 3, Henry / DSLangmuir / Quadratic, root x = (0.626, 0.374, 1.0e-5)
-        reached with spread 1.7e-9 from the uniform guess, far guess -> a non-root x = (0.70, 0.25, 0.05) with spread 0.81.)"""
-        for g in (None, [1.0 / len(isos)] * len(isos)):
-            try:
-                l0 = np.asarray(pgi.iast_point(isos, pp, warningoff=True, adsorbed_mole_fraction_guess=g), dtype=float)
-                x0 = l0 / np.sum(l0)
-                if not np.all(np.isfinite(x0)) or np.min(x0) <= 0:
-                    continue
-                s0 = np.array([float(iso.spreading_pressure_at(p)) for iso, p in zip(isos, np.asarray(pp, dtype=float) / x0)])
-                if bool((np.max(s0) - np.min(s0)) <= 1e-6 * np.max(np.abs(s0))):
-                    return True
-            except Exception:  # noqa
-                continue
-        return False
+    # A return is judged in two classes.  The library accepts a root only if the spreading pressures at the fictitious pressures agree with the first
+    # one to rtol 1e-4 (repository fix of finding S50-C13a, `_check_spreading_pressures_equal`), hence (max - min) / max|Pi| <= 2e-4 for every return
+    # (Props/C13/Accept.lean `accepted_spread_le`).  A relative spread above NON_SOLUTION (5 x that bound; measured on the repaired tree: below 1e-4,
+    # and only with a trace component) is a NON-SOLUTION handed out as a result - never matched by the known findings S22 / S22b, whatever the
+    # mole fractions are; between the certificate's 1e-6 and NON_SOLUTION the older clause applies (known finding S22 when a trace component is involved).
+    NON_SOLUTION = 1e-3
+    NON_SOLUTION_CLAUSE = "a non-solution is returned: spreading pressures at the fictitious pressures differ by more than 0.1 %"
 
-    def certificate(isos, pp, loads, sig, detail, independent=True, lm_nonroot_excused=None):
+    def certificate(isos, pp, loads, sig, detail, independent=True, coarse=None):
         loads = np.asarray(loads, dtype=float)
         tot = float(np.sum(loads))
+        if not np.all(np.isfinite(loads)) or not tot > 0:
+            ck.fail_case({**sig, "clause": "adsorbed mole fractions not in [0,1] or not summing to one"}, {**detail, "loadings": loads.tolist()})
+            return None
         x = loads / tot
         if np.any(x < -1e-12) or np.any(x > 1 + 1e-12) or abs(float(np.sum(x)) - 1) > 1e-12:
             ck.fail_case({**sig, "clause": "adsorbed mole fractions not in [0,1] or not summing to one"}, {**detail, "x": x.tolist()})
+            return None
+        if np.any(x <= 0):
+            # a component with a positive partial pressure and no adsorbed fraction has no fictitious pressure p_i / x_i at all
+            ck.fail_case({**sig, "clause": NON_SOLUTION_CLAUSE}, {**detail, "x": x.tolist(), "what": "a component with a positive partial pressure has the adsorbed mole fraction zero"})
             return None
         trace = bool(np.min(x) < 1e-5)
         p0 = np.asarray(pp, dtype=float) / x
@@ -143,17 +152,22 @@ def run(ck):
             return None
         e = float((np.max(sp) - np.min(sp)) / max(np.max(np.abs(sp)), 1e-300))
         note("equal spreading pressure (library)", e if not trace else 0.0)
-        if not (e <= 1e-6) and not trace and lm_nonroot_excused is not None and lm_nonroot_excused():
-            ck.count(("S22c", tuple(np.round(x, 6))), nontrivial=False, bucket="TODO S22c candidate: far user guess, lm success on a non-root without trace component (set aside)")
-            ck.cov.setdefault("S22c_candidates", []).append({**detail, "x": x.tolist(), "relative_spread": e})
+        note("equal spreading pressure (library, trace component)", e if trace and e == e else 0.0)
+        if not (e <= NON_SOLUTION):          # (NaN included)
+            ck.fail_case({**sig, "clause": NON_SOLUTION_CLAUSE}, {**detail, "x": x.tolist(), "fictitious_pressures": p0.tolist(), "spreading_pressures": sp.tolist(), "relative_spread": e})
             return None
-        if not (e <= 1e-6):
+        if not (e <= 1e-6) and coarse:
+            # regions in which the accuracy of the root finder for a tiny unknown is that of S22 (a gas fraction below 1e-5 in the reverse problem - not
+            # observed on the repaired tree in 4 000 returns; the wide-parameter mixtures, whose smallest fraction sits anywhere around 1e-5): only the
+            # non-solution class is judged, the case is counted
+            ck.count(("coarse", coarse), nontrivial=False, bucket=coarse + ": spread between 1e-6 and 1e-3 (counted)")
+        elif not (e <= 1e-6):
             ck.fail_case({**sig, "clause": "spreading pressures at the fictitious pressures differ", "trace_component": trace}, {**detail, "x": x.tolist(), "spreading_pressures": sp.tolist(), "relative_spread": e})
         e = relerr(1 / tot, float(np.sum(x / n0)))
         note("ideal mixing", e)
         if not (e <= 1e-9):
             ck.fail_case({**sig, "clause": "total loading violates the ideal-mixing rule"}, {**detail, "total": tot, "expected": 1 / float(np.sum(x / n0))})
-        if independent and not trace:
+        if independent and not trace and not coarse:
             spq = np.array([quad_pi(iso, p) for iso, p in zip(isos, p0)])
             e = float((np.max(spq) - np.min(spq)) / max(np.max(np.abs(spq)), 1e-300))
             temkin = any(getattr(i, "model", None) is not None and i.model.name == "TemkinApprox" for i in isos)
@@ -162,6 +176,37 @@ def run(ck):
                 ck.fail_case({**sig, "clause": "independent spreading pressures (quadrature of loading/p) differ", "temkin_involved": temkin},
                              {**detail, "x": x.tolist(), "quadrature": spq.tolist(), "library": sp.tolist(), "relative_spread": e})
         return x, n0, tot
+
+    def range_refusal(e):
+        """A point isotherm has no loading outside the measured range of the branch asked for: `PointIsotherm.loading_at` refuses with the ValueError of
+        scipy's interp1d ("A value (...) in x_new is below / above the interpolation range's minimum / maximum value") - C03: "refused outside the measured
+        range unless a fill rule is given".  iast_point asks `loading_at(p_i)` for its default guess and `loading_at(p_i / x_i)` for the total loading,
+        reverse_iast `loading_at(P y_i / x_i)` - the latter can lie BELOW the first measured point although every partial pressure is inside the range (the
+        spreading pressure is defined there: Henry's law down to zero; clean tree, boost 2, seed 1: three hysteretic isotherms, branch='des', x = [7/16, 4/16,
+        5/16], P = 0.6257: P y_1 / x_1 = 0.0032361 below the lowest desorption point 0.0032537).  No result is handed out and C13 names no error kind
+        ("whenever an IAST calculation returns ..."): this is a refusal, not a failing input (items D3 / S2-DES of the triage T-C13, decided (a))."""
+        return isinstance(e, ValueError) and "interpolation range" in str(e)
+
+    def outcome(fn):
+        try:
+            return "ok", fn()
+        except (CalculationError, ParameterError) as e:
+            return "refused", type(e).__name__
+        except Exception as e:  # noqa
+            if range_refusal(e):
+                return "refused", "ValueError (outside the measured range of a point isotherm)"
+            return "error", type(e).__name__ + ": " + str(e)[:120]
+
+    def started_at_solution(sig, detail, isos, x, ptot, y, loads, bkw):
+        """"forward and reverse IAST invert each other": the default guess of `reverse_iast` (the adsorbed fractions) may be too far away and the call
+        refused - started AT the gas fractions of the forward calculation it has no numerical excuse: it must return them.  (Since the repair of
+        S50-C13a a wrong residual function inside `reverse_iast` is refused by the library's own acceptance test; the defect then shows here.)"""
+        ck.count(("rev-exact",), nontrivial=False, bucket="reverse_iast refused from the default guess: started at the forward solution")
+        o_e, r_e = outcome(lambda: pgi.reverse_iast(isos, x, ptot, warningoff=True, gas_mole_fraction_guess=np.asarray(y, dtype=float), **bkw))
+        if o_e == "ok" and float(np.max(np.abs(np.asarray(r_e[0], dtype=float) - y) / y)) <= 1e-5 and np.allclose(np.asarray(r_e[1], dtype=float), loads, rtol=1e-5):
+            return
+        ck.fail_case({**sig, "clause": "reverse IAST does not return the gas fractions of the forward calculation although it starts from them"},
+                     {**detail, "x": np.asarray(x).tolist(), "expected": np.asarray(y).tolist(), "got": [o_e, r_e if o_e != "ok" else [np.asarray(r_e[0]).tolist(), np.asarray(r_e[1]).tolist()]]})
 
     for i in range(N):
         nc = rng.choice([2, 2, 2, 3, 4])
@@ -198,11 +243,24 @@ def run(ck):
             guess = (g / np.sum(g)).tolist()
         try:
             loads = np.asarray(pgi.iast_point(isos, pp, warningoff=True, adsorbed_mole_fraction_guess=guess), dtype=float)
-        except (CalculationError, ParameterError):
+        except (CalculationError, ParameterError) as e0:
             ck.count(("refused", kind, i), nontrivial=False, bucket="iast_point refused (no convergence reported)")
+            # A refusal hands out no result - but "results coincide with the closed forms for Henry and equal-capacity Langmuir mixtures" needs one: started AT
+            # the closed-form solution the root finding has no numerical excuse (since the repair of S50-C13a the library refuses every point whose spreading
+            # pressures differ, so a wrong residual function shows up as a refusal of everything, not as a wrong number).
+            if kind in ("henry", "langmuir-eq") and isinstance(e0, CalculationError):
+                ks = np.array([p_["K"] for p_ in plist])
+                want = ks * pp if kind == "henry" else plist[0]["n_m"] * ks * pp / (1 + float(np.sum(ks * pp)))
+                o_e, r_e = outcome(lambda: np.asarray(pgi.iast_point(isos, pp, warningoff=True, adsorbed_mole_fraction_guess=(want / np.sum(want)).tolist()), dtype=float))
+                if o_e != "ok" or float(np.max(np.abs(r_e - want) / want)) > 1e-6:
+                    ck.fail_case({**sig, "clause": ("Henry mixture" if kind == "henry" else "equal-capacity Langmuir mixture") + ": the closed-form solution is not returned although the calculation starts from it"},
+                                 {**detail, "guess": guess, "closed_form": want.tolist(), "got": [o_e, r_e if o_e != "ok" else r_e.tolist()]})
             continue
         except Exception as e:  # noqa
-            ck.fail_case({**sig, "clause": "iast_point raises a non-pyGAPS error", "error": type(e).__name__}, {**detail, "error": repr(e)[:300]})
+            if range_refusal(e):
+                ck.count(("refused-range", kind, i), nontrivial=False, bucket="iast_point refused (outside the measured range of a point isotherm)")
+            else:
+                ck.fail_case({**sig, "clause": "iast_point raises a non-pyGAPS error", "error": type(e).__name__}, {**detail, "error": repr(e)[:300]})
             continue
         cert = certificate(isos, pp, loads, sig, detail, independent=(kind != "point" and i % 2 == 0))
         # closed forms
@@ -255,10 +313,16 @@ def run(ck):
                 note("reverse∘forward", e)
                 if not (e <= 1e-5) or not np.allclose(np.asarray(l4, dtype=float), loads, rtol=1e-5):
                     ck.fail_case({**sig, "clause": "reverse IAST does not invert the forward calculation"}, {**detail, "x": x.tolist(), "gas_fractions_back": np.asarray(y2).tolist(), "expected": y.tolist()})
-            except (CalculationError, ParameterError):
+            except ParameterError:
+                ck.count(("rev-refused", i), nontrivial=False, bucket="reverse_iast refused")          # (the fractions of the forward result need not sum to 1.0 exactly)
+            except CalculationError:
                 ck.count(("rev-refused", i), nontrivial=False, bucket="reverse_iast refused")
+                started_at_solution(sig, detail, isos, x, ptot, y, loads, {})
             except Exception as e:  # noqa
-                ck.fail_case({**sig, "clause": "reverse_iast raises a non-pyGAPS error", "error": type(e).__name__}, {**detail, "error": repr(e)[:300]})
+                if range_refusal(e):
+                    ck.count(("rev-refused-range", i), nontrivial=False, bucket="reverse_iast refused (outside the measured range of a point isotherm)")
+                else:
+                    ck.fail_case({**sig, "clause": "reverse_iast raises a non-pyGAPS error", "error": type(e).__name__}, {**detail, "error": repr(e)[:300]})
         # binary helpers
         if nc == 2 and i % 3 == 0 and guess is None:
             try:
@@ -284,43 +348,138 @@ def run(ck):
             except ParameterError as e:
                 ck.count(("svp-param", i), nontrivial=False, bucket="binary helper refused: " + str(e)[:40])
 
-    # -------------------------------------------------------------------- spurious roots: whatever is returned must have fractions in [0,1]
-    # (models whose spreading pressure is also defined for negative pressures - Quadratic, Henry - as a minor component in any position,
-    #  with user starting guesses far from the solution)
+    # -------------------------------------------------------------------- starting guesses far from the solution: whatever is returned must be a solution
+    # `scipy.optimize.root(method='lm')` reports success whenever it terminates (also on a vanishing step next to a mole fraction that turns negative,
+    # where the residual is NaN): the library has to tell a root from a stall itself.  Finding S50-C13a (repaired in the repository: the spreading
+    # pressures at the returned point are compared, CalculationError otherwise): Langmuir / Henry / Langmuir / Quadratic, p = [3.1856, 3.5111, 5.5522,
+    # 0.7543], guess [0.0488, 0.0407, 0.0128, 0.8977] gave x = [6.6e-4, 0.914, 0.064, 0.020] with spreading pressures 64.9 / 41.0 / 24.5 / 14.6; a guess
+    # on the boundary ([1, 0]) gave [nan, nan] or [n_1(p_1), 0].  Every return is certified at full strength, for every kind of guess:
+    # uniform, near a vertex of the simplex (any vertex), random, and ON the boundary (one fraction exactly zero, where p_i / x_i does not exist).
+    # Half of the mixtures have a minor component whose spreading pressure is also defined for negative pressures (Quadratic, Henry) in any position.
+    def far_guesses(nc):
+        out = [("uniform", [1.0 / nc] * nc)]
+        for _ in range(2):
+            v = rng.randrange(nc)
+            g = [rng.uniform(0.005, 0.05) for _ in range(nc)]
+            g[v] = 0.0
+            g[v] = 1 - sum(g)
+            out.append(("vertex", g))
+        g2 = np.array([rng.uniform(0.05, 1) for _ in range(nc)])
+        out.append(("random", (g2 / g2.sum()).tolist()))
+        if rng.random() < 0.5:
+            gb = [rng.uniform(0.05, 1) for _ in range(nc)]
+            gb[rng.randrange(nc)] = 0.0
+            if nc > 2 and rng.random() < 0.3:
+                gb[rng.randrange(nc)] = 0.0
+            if sum(gb) > 0:
+                out.append(("boundary", (np.array(gb) / sum(gb)).tolist()))
+        return out
+
     for i in range(N):
         nc = rng.choice([3, 3, 4])
-        names = [rng.choice(["Langmuir", "Henry", "Toth", "DSLangmuir"]) for _ in range(nc)]
-        pos = rng.randrange(nc) if rng.random() < 0.5 else nc - 1
-        names[pos] = "Quadratic"
+        if i % 2 == 0:
+            names = [rng.choice(["Langmuir", "Henry", "Toth", "DSLangmuir"]) for _ in range(nc)]
+            pos = rng.randrange(nc) if rng.random() < 0.5 else nc - 1
+            names[pos] = "Quadratic"
+        else:
+            names, pos = [rng.choice(IAST_OK) for _ in range(nc)], None
         plist = [pars(n) for n in names]
         isos = [model_iso(n, p_, a) for n, p_, a in zip(names, plist, ADS)]
         pp = np.array([rng.uniform(2, 8) for _ in range(nc)])
-        pp[pos] = rng.uniform(0.05, 0.8)
-        guesses = [[1.0 / nc] * nc]
-        g = [rng.uniform(0.005, 0.05) for _ in range(nc - 1)]
-        guesses.append(g + [1 - sum(g)])
-        g2 = np.array([rng.uniform(0.05, 1) for _ in range(nc)])
-        guesses.append((g2 / g2.sum()).tolist())
-        for guess in guesses:
-            ck.count(("spurious", tuple(names), pos, tuple(round(v, 3) for v in guess), i), bucket=f"user guess far from the solution:{nc} components")
+        if pos is not None:
+            pp[pos] = rng.uniform(0.05, 0.8)
+        for gkind, guess in far_guesses(nc):
+            ck.count(("spurious", tuple(names), pos, tuple(round(v, 3) for v in guess), i), bucket=f"user guess far from the solution:{nc} components:{gkind}")
+            sig = {"kind": "user-guess", "components": nc}
+            detail = {"models": names, "params": plist, "partial_pressures": pp.tolist(), "guess": guess, "guess_kind": gkind}
             try:
                 loads = np.asarray(pgi.iast_point(isos, pp, warningoff=True, adsorbed_mole_fraction_guess=guess), dtype=float)
             except (CalculationError, ParameterError):
+                ck.count(("spurious-refused", gkind), nontrivial=False, bucket="user guess far from the solution: refused (" + gkind + ")")
                 continue
             except Exception as e:  # noqa
-                ck.fail_case({"kind": "user-guess", "components": nc, "clause": "iast_point raises a non-pyGAPS error", "error": type(e).__name__}, {"models": names, "error": repr(e)[:300]})
+                ck.fail_case({**sig, "clause": "iast_point raises a non-pyGAPS error", "error": type(e).__name__}, {**detail, "error": repr(e)[:300]})
                 continue
-            sig = {"kind": "user-guess", "components": nc}
-            detail = {"models": names, "params": plist, "partial_pressures": pp.tolist(), "guess": guess}
             if np.any(loads < 0) or not np.all(np.isfinite(loads)):
                 ck.fail_case({**sig, "clause": "adsorbed mole fractions not in [0,1] or not summing to one"}, {**detail, "loadings": loads.tolist()})
                 continue
-            # TODO(S22c, reported as a candidate genuine defect, not yet in known_findings.json): from a starting guess far from the solution
-            # `root(method='lm')` reports success on a NON-root also when no component is a trace (unchanged tree: 2 of 2008 returns, min x 1e-5 .. 3e-3,
-            # relative spread of the spreading pressures 0.94) and iast_point returns it unchecked - the S22 mechanism.  Such a return is told apart from a
-            # defect of the equations by a differential: the same mixture from the default guess gives a certified solution (`default_ok`), the far-guess
-            # return is not that solution.  Only the equal-spreading-pressure clause is set aside, and only then; it is counted in the evidence.
-            certificate(isos, pp, loads, sig, detail, independent=False, lm_nonroot_excused=lambda: default_certified(isos, pp))
+            certificate(isos, pp, loads, sig, detail, independent=False)
+
+    # -------------------------------------------------------------------- mixtures with a trace component (parameters over the whole sampling range)
+    # The loops above keep the affinities within a few decades of each other.  Here the parameters are drawn from the full ranges (Henry constants
+    # 1e-5 .. 1e5), so that the smallest adsorbed fraction is often below 1e-5 - where, before the repair of S50-C13a, 22 % of the returns of
+    # iast_point with the DEFAULT guess were non-solutions (relative spread of the spreading pressures 0.1 .. 1; 279 of 1270 returns).  The
+    # non-solution class is judged on every return (with the fractions and the mixing rule); the finer 1e-6 clause is left to the loops above,
+    # because the smallest fraction sits anywhere around the 1e-5 that delimits the known finding S22.
+    for i in range(ck.n(270, 720)):
+        nc = rng.choice([2, 2, 3])
+        names = [rng.choice(["Henry", "Langmuir", "DSLangmuir", "Quadratic", "Toth"]) for _ in range(nc)]
+        plist = [sample_params(n, rng) for n in names]
+        for n_, p_ in zip(names, plist):
+            if n_ == "Toth":
+                p_["t"] = logu(rng, 0.4, 2)
+        isos = [model_iso(n, p_, a) for n, p_, a in zip(names, plist, ADS)]
+        ptot = logu(rng, 0.05, 20)
+        y = np.array([rng.uniform(0.1, 1) for _ in range(nc)])
+        pp = ptot * y / np.sum(y)
+        sig = {"kind": "wide-parameters", "components": nc}
+        detail = {"models": names, "params": plist, "partial_pressures": pp.tolist()}
+        ck.count(("wide", tuple(names), i), bucket=f"wide parameter ranges (trace components):{nc} components")
+        try:
+            loads = np.asarray(pgi.iast_point(isos, pp, warningoff=True), dtype=float)
+        except (CalculationError, ParameterError):
+            ck.count(("wide-refused", i), nontrivial=False, bucket="wide parameter ranges: refused")
+            continue
+        except Exception as e:  # noqa
+            ck.fail_case({**sig, "clause": "iast_point raises a non-pyGAPS error", "error": type(e).__name__}, {**detail, "error": repr(e)[:300]})
+            continue
+        if np.any(loads < 0) or not np.all(np.isfinite(loads)):
+            ck.fail_case({**sig, "clause": "adsorbed mole fractions not in [0,1] or not summing to one"}, {**detail, "loadings": loads.tolist()})
+            continue
+        certificate(isos, pp, loads, sig, detail, independent=False, coarse="wide parameter ranges")
+
+    # -------------------------------------------------------------------- the reverse problem, certified: default and far gas-fraction guesses
+    # `reverse_iast` solves the same equations for the gas fractions with the same root finder: what it returns (gas fractions y, loadings) must satisfy
+    # the IAST equations at the partial pressures P*y - equal spreading pressures at P*y_i/x_i, ideal mixing, the requested adsorbed fractions, y in [0,1]
+    # summing to one.  (Finding S50-C13a also lived here, with the DEFAULT guess: Toth / Henry / DSLangmuir / Henry at P = 0.5756, x = [1/4, 3/8, 1/4, 1/8]
+    # returned y_1 = 1.1e-8 with spreading pressures 3e-9 / 0.93 / 0.93 / 0.93.)
+    for i in range(ck.n(30, 160)):
+        nc = rng.choice([2, 3, 3, 4])
+        names = [rng.choice(IAST_OK) for _ in range(nc)]
+        plist = [pars(n) for n in names]
+        isos = [model_iso(n, p_, a) for n, p_, a in zip(names, plist, ADS)]
+        ptot = logu(rng, 0.05, 20)
+        ks = [1] * nc
+        for _ in range(16 - nc):
+            ks[rng.randrange(nc)] += 1
+        xs = [k / 16 for k in ks]
+        for gkind, guess in [("default", None)] + far_guesses(nc)[1:]:
+            ck.count(("reverse", tuple(names), gkind, i), bucket=f"reverse_iast certified:{nc} components:{gkind} guess")
+            sig = {"kind": "reverse:" + ("default-guess" if guess is None else "user-guess"), "components": nc, "entry": "reverse_iast"}
+            detail = {"models": names, "params": plist, "adsorbed_fractions_wanted": xs, "total_pressure": ptot, "gas_mole_fraction_guess": guess, "guess_kind": gkind}
+            try:
+                y2, l2 = pgi.reverse_iast(isos, xs, ptot, warningoff=True, gas_mole_fraction_guess=guess)
+            except (CalculationError, ParameterError):
+                ck.count(("reverse-refused", gkind), nontrivial=False, bucket="reverse_iast certified: refused (" + gkind + " guess)")
+                continue
+            except Exception as e:  # noqa
+                ck.fail_case({**sig, "clause": "reverse_iast raises a non-pyGAPS error", "error": type(e).__name__}, {**detail, "error": repr(e)[:300]})
+                continue
+            y2, l2 = np.asarray(y2, dtype=float), np.asarray(l2, dtype=float)
+            detail = {**detail, "gas_fractions_returned": y2.tolist(), "loadings_returned": l2.tolist()}
+            if not np.all(np.isfinite(y2)) or np.any(y2 < 0) or np.any(y2 > 1) or abs(float(np.sum(y2)) - 1) > 1e-12:
+                ck.fail_case({**sig, "clause": "gas mole fractions returned by reverse_iast not in [0,1] or not summing to one"}, detail)
+                continue
+            cert = certificate(isos, ptot * y2, l2, sig, {**detail, "partial_pressures": (ptot * y2).tolist()}, independent=(i % 3 == 0), coarse="reverse_iast with a gas fraction below 1e-5" if np.min(y2) < 1e-5 else None)
+            if cert is not None and not np.allclose(cert[0], xs, rtol=1e-9, atol=0):
+                ck.fail_case({**sig, "clause": "reverse_iast loadings do not have the requested adsorbed fractions"}, {**detail, "got": cert[0].tolist()})
+            elif cert is not None and gkind == "default" and np.min(y2) > 1e-4:
+                # ... and the forward calculation started AT this certified solution must return it (a wrong residual function inside `iast_point` is
+                # refused by the library's own acceptance test since the repair of S50-C13a: it shows as a refusal from the exact solution)
+                o_f, r_f = outcome(lambda: np.asarray(pgi.iast_point(isos, ptot * y2, warningoff=True, adsorbed_mole_fraction_guess=xs), dtype=float))
+                if o_f != "ok" or not np.allclose(r_f / np.sum(r_f), xs, rtol=1e-5, atol=0) or not np.allclose(r_f, l2, rtol=1e-5, atol=0):
+                    ck.fail_case({**sig, "clause": "forward IAST does not return the certified solution of the reverse calculation although it starts from it"},
+                                 {**detail, "got": [o_f, r_f if o_f != "ok" else r_f.tolist()]})
 
     # -------------------------------------------------------------------- raw-data certificate for point isotherms (Model/IastPoint.lean)
     lean_budget = {"ads": ck.n(10, 40), "des": ck.n(8, 30)}
@@ -344,17 +503,28 @@ def run(ck):
             ck.fail_case({**sig, "clause": "adsorbed mole fractions not in [0,1] or not summing to one"}, {**detail, "loadings": loads.tolist()})
             return None
         x = loads / tot
-        if np.min(x) < 1e-5:            # S22 region (lm success on a non-root with a trace component): judged by the main loop's signature only
-            ck.count(("raw-trace",), nontrivial=False, bucket="raw certificate skipped (trace component)")
+        if np.any(x <= 0):
+            fail_raw({**sig, "clause": NON_SOLUTION_CLAUSE, "branch": br}, {**detail, "branch": br, "x": x.tolist(), "what": "a component with a positive partial pressure has the adsorbed mole fraction zero"})
             return None
         p0 = pp / x
         sp = [iastlib.raw_spreading(*d[br], float(pz)) for d, pz in zip(datas, p0)]
         n0 = [iastlib.raw_loading(*d[br], float(pz)) for d, pz in zip(datas, p0)]
-        if any(v is None for v in sp) or any(v is None for v in n0):
+        if any(v is None for v in sp):
             ck.count(("raw-range",), nontrivial=False, bucket="raw certificate skipped (fictitious pressure at the edge of the measured range)")
             return None
-        sp, n0 = np.array(sp), np.array(n0)
+        sp = np.array(sp)
         e = float((np.max(sp) - np.min(sp)) / max(np.max(np.abs(sp)), 1e-300))
+        if not (e <= NON_SOLUTION):          # (the spreading pressure of the Henry-continued isotherm exists below the first point as well)
+            fail_raw({**sig, "clause": NON_SOLUTION_CLAUSE, "branch": br},
+                     {**detail, "branch": br, "x": x.tolist(), "fictitious_pressures": p0.tolist(), "spreading_pressures_from_raw_data": sp.tolist(), "relative_spread": e})
+            return None
+        if any(v is None for v in n0):
+            ck.count(("raw-range",), nontrivial=False, bucket="raw certificate skipped (fictitious pressure at the edge of the measured range)")
+            return None
+        n0 = np.array(n0)
+        if np.min(x) < 1e-5:            # S22 region (accuracy of the root finder with a trace component): below the non-solution class it is judged by the main loop's signature only
+            ck.count(("raw-trace",), nontrivial=False, bucket="raw certificate skipped (trace component)")
+            return None
         note("raw data: equal spreading pressure" + (" (des)" if br == "des" else ""), e)
         bad = False
         if not (e <= 1e-6):
@@ -389,14 +559,6 @@ def run(ck):
             ck.fail_case({"kind": "refusal", "clause": "documented refusal raises another error kind", "case": what, "error": type(e).__name__}, {**detail, "error": repr(e)[:300], "expected": want.__name__})
             return
         ck.fail_case({"kind": "refusal", "clause": "input outside the documented domain accepted", "case": what}, {**detail, "returned": repr(r)[:300], "expected": want.__name__})
-
-    def outcome(fn):
-        try:
-            return "ok", fn()
-        except (CalculationError, ParameterError) as e:
-            return "refused", type(e).__name__
-        except Exception as e:  # noqa
-            return "error", type(e).__name__ + ": " + str(e)[:120]
 
     def dyadic_fractions(nc):
         ks = [1] * nc
@@ -466,6 +628,9 @@ def run(ck):
                     ck.fail_case({**sig, "clause": "reverse_iast loadings do not have the requested adsorbed fractions"}, {**detail, "adsorbed_fractions_wanted": xs, "got": (l2 / np.sum(l2)).tolist()})
             if cert is not None and np.min(cert[0]) > 1e-4:
                 o_b, back = outcome(lambda: pgi.reverse_iast(isos_h, cert[0], ptot, branch=br, warningoff=True))
+                if (o_b, back) == ("refused", "CalculationError") and all(float(pz) <= (1 - 1e-6) * float(d[br][0][-1]) for d, pz in zip(datas, pp / cert[0])):
+                    # (fictitious pressures away from the end of the measured range: the finite-difference steps of the root finder stay inside)
+                    started_at_solution(sig, detail, isos_h, cert[0], ptot, y, ref, {"branch": br})
                 if o_b == "ok":
                     e = float(np.max(np.abs(np.asarray(back[0], dtype=float) - y) / y))
                     note("reverse∘forward (hysteretic)", e)
@@ -605,7 +770,7 @@ def run(ck):
             except (CalculationError, ParameterError) as e:
                 return "refused", type(e).__name__
             except Exception as e:  # noqa
-                return "error", type(e).__name__
+                return ("refused", "ValueError (outside the measured range)") if range_refusal(e) else ("error", type(e).__name__)
 
         sig = {"kind": kind, "components": nc, "entry": entry, "branch": br_call}
         detail = {"models": names, "params": plist, "partial_pressures": pp.tolist(), "total_pressure": ptot, "gas_fractions": y.tolist(), "history_before_the_call": history,
@@ -875,9 +1040,28 @@ def run(ck):
         g = rng.uniform(0.2, 0.8)
         must_refuse("iast_point: partial pressure beyond the measured range of a point isotherm (user guess)", lambda: pgi.iast_point(isos, pp, adsorbed_mole_fraction_guess=[g, 1 - g], warningoff=True),
                     CalculationError, {"partial_pressures": pp, "last_measured_pressure": float(datas[j]["ads"][0][-1])})
-        # TODO(candidate defect, reported): with the DEFAULT guess the same input raises scipy's ValueError (from loading_at in the guess) instead of CalculationError
+        # With the DEFAULT guess the same input leaves iast_point as scipy's ValueError (the guess asks `loading_at(p_i)`, which refuses a pressure outside
+        # the measured range with the error of interp1d).  C13 does not name an error kind ("whenever an IAST calculation returns ..."; C03: "refused outside
+        # the measured range"): no result is handed out, so nothing is contradicted - any exception is a refusal here (item D3 of the triage, decided (a)).
         must_refuse("iast_point: partial pressure beyond the measured range of a point isotherm (default guess)", lambda: pgi.iast_point(isos, pp, warningoff=True), Exception,
                     {"partial_pressures": pp, "last_measured_pressure": float(datas[j]["ads"][0][-1])})
+        # Below the LOWEST measured point (no measured origin) the point isotherm has a spreading pressure (Henry's law down to zero) but no loading:
+        # the default guess is refused (ValueError of `loading_at`, as above - the reason why the mixtures of the other sections stay inside the measured
+        # range of the branch they ask for); with a user guess a result is handed out whenever every fictitious pressure p_i / x_i is inside the
+        # measured range, and it must be a solution for the raw data like any other.
+        first = float(datas[j]["ads"][0][0])
+        if first > 0:
+            pl = [logu(rng, 0.5, 5), logu(rng, 0.5, 5)]
+            pl[j] = first * rng.uniform(0.05, 0.9)
+            dl = {"partial_pressures": pl, "first_measured_pressure": first, "data": data_detail(datas)}
+            must_refuse("iast_point: partial pressure below the first measured point of a point isotherm (default guess)", lambda: pgi.iast_point(isos, pl, warningoff=True), Exception, dl)
+            for gl in ([g, 1 - g], [0.02, 0.98] if j == 0 else [0.98, 0.02]):
+                ck.count(("below-first", i, gl[0]), nontrivial=False, bucket="partial pressure below the first measured point (user guess)")
+                try:
+                    rl = np.asarray(pgi.iast_point(isos, pl, adsorbed_mole_fraction_guess=gl, warningoff=True), dtype=float)
+                except Exception:  # noqa  (refused: pyGAPS error from the solver, or the error of `loading_at` for a fictitious pressure below the first point)
+                    continue
+                certificate_raw(datas, pl, rl, {"kind": "point:below-first-point", "components": 2, "entry": "iast_point(user guess)"}, {**dl, "guess": gl})
 
     # -------------------------------------------------------------------- refusals stated by the property's anchors
     for name in ["Freundlich", "DR", "Virial"]:
@@ -931,6 +1115,8 @@ def run(ck):
     ck.cov["worst"] = {k: float(f"{v:.3g}") for k, v in sorted(worst.items())}
     ck.cov["rule"] = ("2-4 component mixtures of IAST-capable model isotherms (8 models, BET excluded: pole) and of 500-point point isotherms, total pressure 0.05-20 bar, random gas fractions, default and user guesses, "
                       "random permutations; Henry and equal-capacity Langmuir mixtures against closed forms; reverse problem; fraction / selectivity / VLE helpers; "
+                      "3-4 component mixtures from uniform / vertex / random / boundary (a zero fraction) starting guesses and reverse_iast on 2-4 component mixtures (adsorbed fractions k/16) from the default and far / boundary "
+                      "gas-fraction guesses: every return certified (non-solution class above 1e-3 relative spread, 1e-6 otherwise); "
                       "hysteretic coarse point isotherms (desorption rows on the adsorption grid or on their own 4-30 point grid, stored downwards after the adsorption rows) x both branches x every entry point "
                       "(default / user guess, fraction helper, reverse problem and its inversion, selectivity and VLE helpers), each result certified from the raw rows of the requested branch "
                       "(Lean pointCertBranch at Q from the stored rows on the first cases per branch); partial pressures beyond the desorption range refused; model isotherms fitted on the desorption branch: "
@@ -938,5 +1124,5 @@ def run(ck):
                       "coarse (8-40 point, regular / irregular / with origin / hysteretic) point isotherms and model isotherms (built on either branch) as OBJECTS WITH A QUERY HISTORY, called on either branch, (1-4 earlier loading_at / pressure_at / "
                       "spreading_pressure_at / accessor calls with 8 interpolation kinds, both branches, 4 fill values, other units; an earlier IAST run) against fresh objects and against the certificate "
                       "computed from the raw data (Lean pointCert at Q on the first cases); every entry point with integer-valued and quarter-valued numbers in 14 container / dtype variants "
-                      "(ints, int arrays, lists, tuples, float32, 0-d arrays, mixed) against float64; verbose report; extrapolation warning; 19 documented refusals")
+                      "(ints, int arrays, lists, tuples, float32, 0-d arrays, mixed) against float64; verbose report; extrapolation warning; 19 documented refusals; partial pressures above the last / below the first measured point of a point isotherm (refused with the default guess, certified when a user guess returns)")
     ck.assumptions += ["scipy.optimize.root(method='lm') is numerical: each returned result is certified against the IAST equations", "scipy.integrate.quad for the independent spreading pressure (1e-11)"]
